@@ -125,6 +125,7 @@ func coinRec(id int, v, cf int64) map[string]interface{} {
 }
 
 func runC19(c *Ctx) {
+	c.Conc = true // stateless calls are also replayed from several goroutines at once
 	r := c.Rng
 	selectors := []string{"MinIndex", "MinNumber", "MaxValueAge", "MinPriority"}
 	sel := func(coins []interface{}, name string, target, mi, mc, ma int) {
